@@ -449,6 +449,57 @@ func genC40(c *hlib.Ctx) {
 		c.Count("malformed:aggregate-absent-in-some-chunks")
 		c.Do("cm.merge "+fmtSeriesList([][]aggrChk{a, b}), false)
 	}
+	// not judged: one aggregate is absent over a whole stretch of time in EVERY series, so that a
+	// whole 120-sample window has no sample of it and toChunk's Seek(minTime) lands beyond the
+	// window (boundedSeriesIterator.Seek does not enforce maxt; the `AtT() <= maxTime` test does)
+	for i := 0; i < budget(c, 40, 500); i++ {
+		step := int64(300000)
+		t0 := r.I64Range(1, 1000000)
+		cut := pickInt(r, 60, 30, 120, 45)
+		n := r.Range(130, 330)
+		a := genAggrSeries(r, n, t0, step, 0, cut, 0)
+		b := genAggrSeries(r, n, t0+step/2, step, 0, cut, 500)
+		j := r.Range(1, 4)
+		// absent stretch: chunk indices [lo,hi) of both series
+		nch := len(a)
+		if len(b) < nch {
+			nch = len(b)
+		}
+		lo, hi := 0, nch
+		switch r.Intn(3) {
+		case 0: // a prefix
+			hi = r.Range(1, nch)
+			c.Count("absent-stretch:prefix")
+		case 1: // a suffix
+			lo = r.Range(0, nch-1)
+			c.Count("absent-stretch:suffix")
+		default:
+			lo = r.Range(0, nch-1)
+			hi = r.Range(lo+1, nch)
+			c.Count("absent-stretch:middle")
+		}
+		for _, s := range [][]aggrChk{a, b} {
+			for k := lo; k < hi && k < len(s); k++ {
+				s[k].present[j], s[k].a[j] = false, nil
+			}
+		}
+		c.Count("malformed:aggregate-absent-over-whole-windows")
+		out := c.Do("cm.merge "+fmtSeriesList([][]aggrChk{a, b}), false)
+		// how often an output chunk really lacks the aggregate while a later one has it
+		var lacks, later bool
+		for _, o := range strings.Split(out, ";") {
+			if oc, ok := parseChunk(o); ok {
+				if !oc.present[j] {
+					lacks = true
+				} else if lacks {
+					later = true
+				}
+			}
+		}
+		if later {
+			c.Count("answer:window-without-the-aggregate-then-one-with-it")
+		}
+	}
 }
 
 func minI(a, b int) int {
